@@ -52,6 +52,8 @@ func (e *FnEnc) reset() {
 	e.st0 = &State{heap: map[string]string{}}
 	e.st = e.st0.clone()
 	e.deferred = nil
+	e.modAllowed, e.modAllowedDone = nil, false
+	e.symCache = nil
 	e.loopPre = map[*loopInfo]*State{}
 	if e.assumptions == nil {
 		e.assumptions = map[string]bool{}
@@ -373,6 +375,9 @@ func (e *FnEnc) encodeBlock(b *ssa.BasicBlock) {
 			}
 		}
 		e.loopPre[li] = preState
+		if e.pass == 2 {
+			e.loopFrame(li, preState, true)
+		}
 	}
 	for _, in := range b.Instrs {
 		if _, ok := in.(*ssa.Phi); ok {
@@ -389,6 +394,12 @@ func (e *FnEnc) encodeBlock(b *ssa.BasicBlock) {
 		}
 		sli := e.loops[s]
 		spec := e.c.Loops[sli.ordinal]
+		if e.pass == 2 {
+			saveG := e.curGuard
+			e.curGuard = e.edgeCond(b, s)
+			e.loopFrame(sli, e.loopPre[sli], false)
+			e.curGuard = saveG
+		}
 		if spec == nil || e.pass != 2 {
 			continue
 		}
@@ -499,6 +510,33 @@ func (e *FnEnc) encodeExit() {
 			lbl = shortLabel(c.Src)
 		}
 		e.oblige("ensures", lbl, t, token.NoPos)
+		// fallback decomposition: the same clause at each return point separately (no ite-merged results)
+		if len(e.rets) > 1 && len(e.obls) > 0 && e.obls[len(e.obls)-1].Goal == t {
+			parent := e.obls[len(e.obls)-1]
+			saveG, saveSt := e.curGuard, e.st
+			for k, r := range e.rets {
+				renv := &specEnv{e: e, vars: map[string]Val{}, st: r.st, old: e.st0}
+				for kk, v := range e.params {
+					renv.vars[kk] = v
+				}
+				res := e.fn.Signature.Results()
+				for i := 0; i < res.Len(); i++ {
+					rv := e.coerce(r.vals[i], res.At(i).Type())
+					rv.T = res.At(i).Type()
+					renv.results = append(renv.results, rv)
+					if n := res.At(i).Name(); n != "" && n != "_" {
+						if _, clash := renv.vars[n]; !clash {
+							renv.vars[n] = rv
+						}
+					}
+				}
+				e.curGuard, e.st = r.guard, r.st
+				rt := e.evalBool(c.E, renv, c)
+				e.flushFacts()
+				parent.subs = append(parent.subs, &Obligation{Name: fmt.Sprintf("%s@return%d", parent.Name, k+1), Kind: "ensures", Props: parent.Props, Fn: parent.Fn, nAsserts: len(e.asserts), Guard: r.guard, Goal: rt, enc: e})
+			}
+			e.curGuard, e.st = saveG, saveSt
+		}
 	}
 	e.frameObligations()
 }
@@ -815,7 +853,16 @@ func (e *FnEnc) encBinOp(x *ssa.BinOp) {
 	case *types.Slice:
 		r = seq(a.L[0], b.L[0]) // only comparison with nil is legal
 	case *types.Interface:
-		if _, ok := x.Y.Type().Underlying().(*types.Interface); !ok && !isNilConst(x.Y) {
+		if isNilConst(x.Y) || isNilConst(x.X) {
+			// nil-ness of an interface value is decided by its dynamic-type tag alone
+			if isNilConst(x.Y) {
+				r = seq(a.L[0], "0")
+			} else {
+				r = seq(b.L[0], "0")
+			}
+			break
+		}
+		if _, ok := x.Y.Type().Underlying().(*types.Interface); !ok {
 			b = e.makeIface(b, x.Y.Type())
 		}
 		r = sand(seq(a.L[0], b.L[0]), seq(a.L[1], b.L[1]))
